@@ -1,4 +1,5 @@
 import Mdsort.Proofs.WorldStdinExecOne
+import Mdsort.Proofs.EvalPWorld
 
 /-! `message_parse` and the processing of the one spooled message in a stdin run. -/
 
@@ -142,11 +143,10 @@ inductive Verdict where
 def evalEnv (env : PEnv) (orc : EvalOracles) (path : Bytes) : Env :=
   { rx := orc.rx, command := fun _ => -1, isDir := fun _ => false, now := env.now,
     strptime := orc.strptime, zoneName := orc.zoneName, fileTime := fun _ => none,
-    dryrun := env.dryrun, path := path }
+    timeFormat := orc.timeFormat, dryrun := env.dryrun, path := path }
 
-/-- `expr_eval` + `matches_interpolate` as `main` calls them. -/
-def verdictOf (env : PEnv) (orc : EvalOracles) (expr : Expr) (m : Msg) (parts : List Msg) (path : Bytes) (fl : MFlags) : Verdict :=
-  match eval (evalEnv env orc path) m expr 0 m { ml := [], flags := fl } with
+/-- `matches_interpolate` on the result `ev` of `expr_eval`, as `main` calls it. -/
+def verdictOfEv (env : PEnv) (orc : EvalOracles) (m : Msg) (parts : List Msg) (path : Bytes) : Tri × St → Verdict
   | (.error, _) => .failed
   | (.nomatch, _) => .unmatched
   | (.match, est) =>
@@ -154,9 +154,32 @@ def verdictOf (env : PEnv) (orc : EvalOracles) (expr : Expr) (m : Msg) (parts : 
     | none => .failed
     | some (ml, msgs) => .actions ml (msgs 0)
 
-/-- The verdict for the bytes `input` spooled under `path` with maildir flags `fl`. -/
+/-- `expr_eval` + `matches_interpolate` with the pure evaluator (a rule tree that asks the operating system nothing). -/
+def verdictOf (env : PEnv) (orc : EvalOracles) (expr : Expr) (m : Msg) (parts : List Msg) (path : Bytes) (fl : MFlags) : Verdict :=
+  verdictOfEv env orc m parts path (eval (evalEnv env orc path) m expr 0 m { ml := [], flags := fl })
+
+/-- The verdict for the bytes `input` spooled under `path` with maildir flags `fl` (pure evaluator). -/
 def stdinVerdict (env : PEnv) (orc : EvalOracles) (expr : Expr) (input path : Bytes) (fl : MFlags) : Verdict :=
   verdictOf env orc expr (parseMessage input) ((getAttachments (parseMessage input)).getD []) path fl
+
+/-- The verdict when the operating system answers the questions of evaluation (`command`, `isdirectory`, file-time `date`
+conditions) with `as`. -/
+def stdinVerdictA (env : PEnv) (orc : EvalOracles) (expr : Expr) (input path : Bytes) (fl : MFlags) (as : List SysAns) : Verdict :=
+  verdictOfEv env orc (parseMessage input) ((getAttachments (parseMessage input)).getD []) path
+    (evalR (evalEnv env orc path) expr (parseMessage input) fl as).1
+
+/-- For a rule tree that asks nothing the answers are irrelevant. -/
+theorem stdinVerdictA_asksFree (env : PEnv) (orc : EvalOracles) (expr : Expr) (h : asksFree expr = true) (input path : Bytes)
+    (fl : MFlags) (as : List SysAns) :
+    stdinVerdictA env orc expr input path fl as = stdinVerdict env orc expr input path fl := by
+  unfold stdinVerdictA stdinVerdict verdictOf
+  have h1 := evalT_asksFree (evalEnv env orc path) (parseMessage input) expr h 0 (parseMessage input)
+    { ml := [], flags := fl }
+  have h2 : evalR (evalEnv env orc path) expr (parseMessage input) fl as =
+      ((evalT (noSys (evalEnv env orc path)) (parseMessage input) expr 0 (parseMessage input)
+        { ml := [], flags := fl }).run as) := rfl
+  rw [h2, h1]
+  rfl
 
 /-- What an error-free processing of the spooled message means, by verdict. -/
 def DoneV (S : Spool) (env : PEnv) (input : Bytes) (v : Verdict) (w' : World) : Prop :=
@@ -168,9 +191,11 @@ def DoneV (S : Spool) (env : PEnv) (input : Bytes) (v : Verdict) (w' : World) : 
       (∀ m ∈ ml, moveTy m.ty → destPath m.path ≠ some S.sp) →
       ∃ p n fid, p ≠ S.sp ∧ GoodAt w' [input, (messageWrite m').1] p n fid
 
+/-- An error-free processing of the spooled message: `DoneV` for the verdict the rules give for SOME answers `as` of the operating
+system to the questions of evaluation (the answers of the run). -/
 def Done (S : Spool) (env : PEnv) (orc : EvalOracles) (expr : Expr) (input name0 : Bytes) (w' : World) : Prop :=
-  ∃ fl, flagsParse name0 = some fl ∧
-    DoneV S env input (stdinVerdict env orc expr input (S.sp ++ [47] ++ name0) fl) w'
+  ∃ fl as, flagsParse name0 = some fl ∧
+    DoneV S env input (stdinVerdictA env orc expr input (S.sp ++ [47] ++ name0) fl as) w'
 
 /-- All-path facts about the spool after a part of the run that started in `w`. -/
 def SpoolAll (S : Spool) (w w' : World) : Prop :=
